@@ -55,8 +55,10 @@ M = [
     ("C13-m2", "C13", "liquid/builtin/expressions/loop.py", r"context\.stopindex\(key=offset_key, index=stop_\)", "pass", "offset: continue never advances"),
     ("C14-m1", "C14", "liquid/context.py", r"self\.scope = ReadOnlyChainMap\(self\.locals, self\.globals, builtin, self\.counters\)", "self.scope = ReadOnlyChainMap(self.globals, self.locals, builtin, self.counters)", "globals shadow assigned locals"),
     ("C15-m1", "C15", "liquid/builtin/tags/render_tag.py", r"disabled_tags=\[TAG_INCLUDE\],\n(\s+)carry_loop_iterations=True,", r"disabled_tags=[],\n\1carry_loop_iterations=True,", "include is allowed inside rendered partials"),
-    ("C16-m1", "C16", "liquid/undefined.py", r"    def __len__\(self\) -> int:\n        return 0", "    def __len__(self) -> int:\n        return 1", "undefined has length 1"),
-    ("C17-m1", "C17", "liquid/builtin/filters/array.py", r"return list\(reversed\(array\)\)", "array.reverse(); return array", "reverse mutates its input"),
+    ("C16-m1", "C16", "liquid/undefined.py", r"(    def __iter__\(self\) -> Iterator\[Any\]:\n        raise UndefinedError\(self\.msg, token=self\.token\)\n\n    def __str__\(self\) -> str:\n)        raise UndefinedError\(self\.msg, token=self\.token\)", r"\1        return '?'", "StrictUndefined prints '?' instead of raising"),
+    ("C16-m2", "C16", "liquid/undefined.py", r"    def __len__\(self\) -> int:\n        return 0", "    def __len__(self) -> int:\n        return 1", "default undefined has length 1 (equivalent for C16: the property only relates the strict types to the default one)"),
+    ("C17-m1", "C17", "liquid/builtin/expressions/loop.py", r"        if isinstance\(obj, Mapping\):\n            return iter\(obj\.items\(\)\), len\(obj\)", "        if isinstance(obj, dict):\n            obj.setdefault('_n', len(obj))\n        if isinstance(obj, Mapping):\n            return iter(obj.items()), len(obj)", "iterating a hash writes a key into the caller's data"),
+    ("C17-m2", "C17", "liquid/builtin/filters/array.py", r"return list\(reversed\(array\)\)", "array.reverse(); return array", "reverse reverses in place (equivalent: sequence_filter hands the filter a flattened copy)"),
     ("C18-m1", "C18", "liquid/extra/tags/extends_tag.py", r"stack\[-2\]\.parent = stack\[-1\]", "stack[0].parent = stack[-1]", "block.super chains skip intermediate templates"),
     ("C19-m1", "C19", "liquid/static_analysis.py", r"visit_key = hash\(\(partial\.key, _visible_names\(partial, scope\)\)\)", "visit_key = partial.key", "partials visited once per argument names again"),
     ("C19-m2", "C19", "liquid/static_analysis.py", r"if expression\.tail_filters:", "if False:", "tail filters of ternaries are not reported"),
@@ -69,10 +71,10 @@ M = [
     ("C22-m2", "C22", "liquid/builtin/loaders/file_system_loader.py", r"if not resolved\.is_relative_to\(base_resolved\):", "if not str(resolved).startswith(str(base_resolved)):", "symlink containment by string prefix"),
     ("C23-m1", "C23", "liquid/builtin/loaders/mixins.py", r'return f"\{args\[self\.namespace_key\]\}/\{name\}"', "return name", "cache key ignores the namespace"),
     ("C23-m2", "C23", "liquid/builtin/loaders/mixins.py", r"if self\.auto_reload and not cached_template\.is_up_to_date\(\):", "if False:", "cached templates are never reloaded"),
-    ("C24-m1", "C24", "liquid/utils/cache.py", r"self\._cache\.move_to_end\(key\)", "pass", "a hit does not refresh recency"),
+    ("C24-m1", "C24", "liquid/utils/lru_cache.py", r"(value = self\._cache\[key\]  # This will raise a KeyError if key is not cached\n)        self\._cache\.move_to_end\(key\)", r"\1        pass", "a hit does not refresh recency"),
     ("C25-m1", "C25", "liquid/builtin/filters/math.py", r"return max\(num, other\)", "return min(num, other)", "at_least returns the smaller value"),
     ("C25-m2", "C25", "liquid/builtin/filters/array.py", r"if sequence\.index\(obj\) == i\]", "if len(sequence) - 1 - sequence[::-1].index(obj) == i]", "uniq keeps the last occurrence"),
-    ("C26-m1", "C26", "liquid/extra/filters/translate.py", r"RE_MESSAGE_FORMAT", "RE_MESSAGE_FORMAT", "(placeholder, see C26-m2)"),
+    ("C26-m1", "C26", "liquid/extra/filters/translate.py", r"    if val is None or isinstance\(val, bool\):\n        return None", "    if not val or isinstance(val, bool):\n        return None", "the t filter treats count: 0 as no count again"),
     ("C27-m1", "C27", "liquid/extra/tags/macro_tag.py", r"if arg\.name in macro\.args:", "if arg.name in macro.args and args.get(arg.name) is macro.args[arg.name].value:", "a keyword argument does not override an earlier positional one"),
 ]
 
